@@ -120,7 +120,7 @@ pub fn harness_drop<T>(v: T) {
     HARNESS_DROP.with(|h| h.set(false));
 }
 
-pub trait Payload: Send + Sized + 'static {
+pub trait Payload: Send + Sized + Unpin + 'static {
     const NAME: &'static str;
     const DROPPABLE: bool;
     const ZST: bool = false;
